@@ -199,7 +199,7 @@ func (x *Exec) havocCall(fr *Frame, st *State, c *ssa.CallCommon, callee *ssa.Fu
 			}
 		}
 		if all {
-			x.vc.havocAll(st)
+			x.havocAllKeep(st, x.closureWritten())
 			x.vc.noteOnce("havoc-all at uncontracted call " + desc)
 		} else {
 			for _, k := range keys {
@@ -211,7 +211,7 @@ func (x *Exec) havocCall(fr *Frame, st *State, c *ssa.CallCommon, callee *ssa.Fu
 			x.vc.noteOnce("type-based frame at uncontracted external call " + desc)
 		}
 	} else {
-		x.vc.havocAll(st)
+		x.havocAllKeep(st, x.closureWritten())
 		x.vc.noteOnce("havoc-all at uncontracted call " + desc)
 	}
 	if resT == nil {
@@ -221,6 +221,18 @@ func (x *Exec) havocCall(fr *Frame, st *State, c *ssa.CallCommon, callee *ssa.Fu
 		return Val{}
 	}
 	return x.freshTyped(st, "ret_"+shortCallee(c), resT)
+}
+
+// closureWritten: private cells that some closure of their function writes
+// (an unknown callee might run that closure).
+func (x *Exec) closureWritten() map[*ssa.Alloc]bool {
+	skip := map[*ssa.Alloc]bool{}
+	for _, c := range x.priv {
+		if closureWrites(c.fr.fn, c.alloc) {
+			skip[c.alloc] = true
+		}
+	}
+	return skip
 }
 
 func (vc *VC) noteOnce(s string) {
@@ -243,7 +255,9 @@ func (x *Exec) inline(fr *Frame, st *State, callee *ssa.Function, args []Val, bi
 	sub.unit = fr.unit + ">" + x.eng.unitName(callee)
 	sub.ord = fr.ord // share ordinal space so names stay unique
 	sub.inlineTag = fmt.Sprintf("%s@%d", callee.Name(), fr.nextOrd("inline:"+callee.Name()))
+	nPriv := len(x.priv)
 	x.run(sub, st, args, bind)
+	x.priv = x.priv[:nPriv]
 	if len(sub.rets) == 0 {
 		// never returns
 		st.pc = "false"
@@ -404,7 +418,23 @@ func (x *Exec) applyContract(fr *Frame, st *State, ct *FuncContract, callee *ssa
 	// frame
 	allocBefore := st.alloc
 	if !ct.HasMod || ct.ModAll {
-		vc.havocAll(st)
+		// "everything except T...": heaps of the listed types keep their content
+		savedKeys := map[string]string{}
+		for _, tt := range ct.ModExcept {
+			t := x.eng.typeFromText(scopePkg, strings.TrimSpace(tt), ct.Src)
+			for _, kind := range []string{"H", "E"} {
+				k := vc.heapKey(kind, t)
+				savedKeys[k] = vc.heapGet(st, k)
+			}
+			k := vc.heapKey("E", types.NewPointer(t))
+			savedKeys[k] = vc.heapGet(st, k)
+			k = vc.heapKey("H", types.NewSlice(types.NewPointer(t)))
+			savedKeys[k] = vc.heapGet(st, k)
+		}
+		x.havocAllKeep(st, x.closureWritten())
+		for k, v := range savedKeys {
+			st.heap[k] = v
+		}
 	} else {
 		for _, m := range ct.Modifies {
 			x.havocLvalue(fr, st, pre, ct, mk, m)
